@@ -804,7 +804,8 @@ def _serial_worker_count_is_admitted(ctx: Ctx):
         for st in am.tree.body:
             if isinstance(st, ast.Assign) and len(st.targets) == 1 and u(st.targets[0]) == tname and isinstance(st.value, ast.Call) \
                     and call_name(st.value) == "_cast_factory" and st.value.args:
-                chk = u(st.value.args[1]) if len(st.value.args) > 1 else None
+                chk_node = st.value.args[1] if len(st.value.args) > 1 else kwarg(st.value, "check")  # (positional or by keyword)
+                chk = u(chk_node) if chk_node is not None and not (isinstance(chk_node, ast.Constant) and chk_node.value is None) else None
                 admits = {None: True, "is_nonneg": True, "is_nonnegi": True, "is_pos": False, "is_posi": False, "is_nat": False,
                           "is_neg": False, "is_negi": False}.get(chk, None)
     if admits is None:
